@@ -32,7 +32,7 @@ def gen_value(rng):
     if k == 4:
         return rng.choice(['abc', 'file.edf', 'P21/c', 'None', 'x-y', '1e', '0x10', 'nan_', 'e5'])
     if k == 5:
-        return rng.choice(['12', '-7', '3.5', '1e3', ' 42', '007'])      # numeric-looking strings
+        return rng.choice(['12', '-7', '3.5', '1e3', ' 42', '007', '+7', '+0', '1_000', '-1_0', '+3.5', '  -8  ', '1_0.5', '-0', '1E2', '.5', '5.'])      # numeric-looking strings
     return rng.random()
 
 
